@@ -375,7 +375,8 @@ def exec_run(task, cd):
     return dict(exit=r['exit'], exception=r['exception'], traceback=r.get('traceback'), stdout=r['stdout'][:20000],
                 stderr=r['stderr'][:6000], log=lines[:2000], home=cd.home, tmp=tmp,
                 env_after={n: os.environ.get(n) for n in ('A', 'B')}, env_changed=r['env_changed'],
-                cwd_ok=r['cwd_after'] == r['cwd_before'], cwd_after=r['cwd_after'])
+                cwd_ok=r['cwd_after'] == r['cwd_before'], cwd_after=r['cwd_after'],
+                sandboxes_left=[n for n in os.listdir(tmp) if n.startswith('exactly-')])
 
 
 def exec_subprocess(task, cd):
@@ -470,6 +471,9 @@ def compare(r, p, o):
     """None, or 'Clause: detail' for the first clause of the property the observation contradicts"""
     if o.get('exception') or o.get('no_termination') or o.get('worker_died') or o.get('harness_exception'):
         return 'Terminates: %s' % (o.get('exception') or o.get('harness_exception') or [k for k in o if o[k] is True])
+    if o.get('sandboxes_left'):
+        return 'SandboxRemoved: %d sandbox(es) left after the invocation: %s' % (len(o['sandboxes_left']),
+                                                                                  o['sandboxes_left'][:3])
     want_ids = [list(x) for x in r['idents']]
     if [x[0] for x in p['idents']] != [x[0] for x in want_ids]:
         return 'EveryCase: processed %s, specification %s' % (p['idents'], want_ids)
